@@ -42,7 +42,9 @@ ASSUMPTIONS = [
 ]
 
 TRANSFORMS = [("id", 1.0, 0.0, 0.0), ("translate", 1.0, 1000.0, -77.0), ("scale", 2.0 ** 10, 0.0, 0.0),
-              ("scale", 2.0 ** -10, 0.0, 0.0), ("scale", 1.0e-3, 0.0, 0.0)]
+              ("scale", 2.0 ** -10, 0.0, 0.0), ("scale", 1.0e-3, 0.0, 0.0),
+              # far from the origin relative to the polygon size (projected coordinates): offset/size ~ 1e7, exact in float64
+              ("translate-far", 1.0, 1.0e7, -2.0e7)]
 SEED_TRANSFORMS = [("affine", 3.0, -3.25, 17.5), ("affine", 2.0 ** -4, 0.0, 1.0e4),
                    ("affine", 7.5, 123.0, -0.125), ("affine", 0.1, 0.0, 0.0),
                    ("affine", 1.0e3, -5.0e5, 2.5e5), ("affine", 0.7, 0.3, -0.9)]
